@@ -957,7 +957,7 @@ def run_c12(tier, seed, keep=False):
                            {"G": "3" if q else "4", "Bugs": "{}", "ShareOpts": so, "ShareConvs": sc}, ev, "sharing-opts%s-convs%s" % (so, sc))
         # (1b) any number of goroutines: no two accesses of different goroutines' programs conflict (TLAPS)
         tlaps_stage(w, ev, "SharingProof.tla", "sharing-unbounded-proof",
-                    sync=("Sharing.tla", _sharing_repaired, ["Acc", "Program", "NoLock", "Conflict", "Cur", "Active", "NoConflict", "PosOK"]))
+                    sync=("Sharing.tla", _sharing_repaired, ["Acc", "Program", "NoLock", "Conflict", "Locks", "Init", "Cur", "Active", "Step", "Next", "Spec", "NoConflict", "PosOK"]))
         # (2) the real code under the race detector, same sharing configurations
         race = w.build(race=True)
         n = 400 if q else 4000
